@@ -33,7 +33,8 @@ P = {
     "theorems_module": "Properties.C20",
     "theorems": ["C20_load_meets_spec", "C20_env_order_independent", "C20_env_wins_per_leaf", "C20_defaults_fill",
                  "C20_file_env_equivalent", "C20_file_env_equivalent_splits", "C20_env_name_read_back", "C20_merge_later_wins_no_panic", "C20_merge_panic_iff", "C20_in_scope_b_sound",
-                 "C20_domain_nonvacuous", "C20_split_example", "C20_schema_loader_agree",
+                 "C20_domain_nonvacuous", "C20_split_example", "C20_schema_loader_agree", "C20_tables_agree_accept_equal",
+                 "C20_schema_loader_accept_equal",
                  "C20_F1_refuted", "C20_F1_rows_all_disagree", "C20_F3_pinned_refuted", "C20_F3_repaired_on_witness", "C20_F4_refuted"],
     "streams": [{
         "name": "tree", "pkg": "./internal/config/parser", "test": "TestVerifC20",
